@@ -68,6 +68,8 @@ D.h_dispatch3 = P3.h_dispatch3
 PL.g_dispatch = P3.h_dispatch3
 L.l_fixed = P3.l_fixed_values
 L.t_ctl = P3.l_fixed_values
+T.t_proto = P3.t_proto_values
+C.h_protoread = P3.h_protoread_values
 
 PROPS = {}
 
@@ -151,7 +153,7 @@ reg("C06", "other",
     "encode side only).")
 
 reg("C07", "other",
-    [IO.s_readers, IO.s_ioerr, IO.t_eof, IO.h_noswallow, D.h_block, B.l_consume, PL.h_pending],
+    [IO.s_readers, IO.s_ioerr, IO.t_eof, IO.h_noswallow, D.h_block, B.l_consume, PL.h_pending, PL.h_total],
     "Decided per site: every transport call is read_exact (operand read completely before use) or poll_read in poll "
     "(S-readers); every io::Result is propagated by `?` or a kind-preserving map_err (S-ioerr); is_eof <=> IoError(UnexpectedEof) "
     "for both error types and zero-length reads produce exactly that (T-eof, P-header/P-body); no map_err closure relabels an I/O "
@@ -216,7 +218,7 @@ reg("C13", "proof",
     "Protocol::decode_async then decode_with_protocol with nothing in between (H-compose).")
 
 reg("C14", "other",
-    [IO.s_ioerr, IO.s_readers, IO.s_writers, IO.h_fromio, IO.h_toio, IO.h_noswallow, IO.t_eof, IO.h_async1, PL.h_pending],
+    [IO.s_ioerr, IO.s_readers, IO.s_writers, IO.h_fromio, IO.h_toio, IO.h_noswallow, IO.t_eof, IO.h_async1, PL.h_pending, PL.h_total],
     "Decided per site over decode and encode closures (tokio/std adaptor semantics trusted): every io::Result from a transport or "
     "sink call is propagated through a kind-preserving conversion (S-ioerr); From<io::Error> keeps err.kind(), From<Error> for "
     "io::Error returns the carried kind and InvalidData otherwise, evaluated for every error variant (H-fromio, H-toio); no handler "
